@@ -30,9 +30,9 @@ def encBT : Basis ℚ × Tensor ℚ → Val := fun (b, cp) => .list [encodeBasis
 
 /-- Ops (all mirror the factory of the same name; `t`/`u`/`tangents` may be the word `none`):
     `c14_interp_curve basis tol t x`, `c14_lsq_curve basis tol t x`,
-    `c14_cubic boundary tol cp_rtol cp_atol x t tangents`, `c14_bezier tol pts quadratic relative`,
+    `c14_cubic boundary tol cp_rtol cp_atol x t chords closing tangents`, `c14_bezier tol pts quadratic relative`,
     `c14_rebuild obj tol p n`, `c14_interp_grid bases tol u [shape,flat]`,
-    `c14_lsq_grid bases tol u [shape,flat]`, `c14_loft bases tol [[shape,flat]…] dist`,
+    `c14_lsq_grid bases tol u [shape,flat]`, `c14_loft bases tol [[shape,flat]…] centre_distances`,
     `c14_error obj target tol nodes weights` → `[err2 per span, err_inf²]`. -/
 def handle : Handler
   | "c14_interp_curve", [bv, tolv, tv, xv] => some <| Id.run do
@@ -47,15 +47,17 @@ def handle : Handler
       let some t := tv.toRats? | return bad
       let some x := decodeMat xv | return bad
       return ofExcept encodeMat (leastSquareCurve b tol t x)
-  | "c14_cubic", [bdv, tolv, rtv, atv, xv, tv, tgv] => some <| Id.run do
+  | "c14_cubic", [bdv, tolv, rtv, atv, xv, tv, chv, clv, tgv] => some <| Id.run do
       let some bd := bdv.toNat? | return bad
       let some tol := tolv.toRat? | return bad
       let some rt := rtv.toRat? | return bad
       let some atl := atv.toRat? | return bad
       let some x := decodeMat xv | return bad
-      let some t := tv.toRats? | return bad
+      let some t := decodeOpt Val.toRats? tv | return bad
+      let some ch := chv.toRats? | return bad
+      let some cl := clv.toRat? | return bad
       let some tg := decodeOpt decodeMat tgv | return bad
-      return ofExcept encBC (cubicCurve bd tol rt atl x t tg)
+      return ofExcept encBC (cubicCurveFull bd tol rt atl x t ch cl tg)
   | "c14_bezier", [tolv, pv, qv, rv] => some <| Id.run do
       let some tol := tolv.toRat? | return bad
       let some pts := decodeMat pv | return bad
@@ -86,7 +88,7 @@ def handle : Handler
       let some sl := sv.toList? | return bad
       let some secs := sl.mapM decodeTensor | return bad
       let some dist := dv.toRats? | return bad
-      return ofExcept encBT (loft bases tol secs dist)
+      return ofExcept encBT (loftFull bases tol secs dist)
   | "c14_error", [ov, tv, tolv, nv, wv] => some <| Id.run do
       let some o := decodeObj ov | return bad
       let some t := decodeObj tv | return bad
